@@ -1,4 +1,5 @@
 import BobModel.Props.C01
+import BobModel.Proofs.C05Log
 /-
 C05 — failed or killed builds never poison the workspace: property theorems about the builder model
 (Model/Builder.lean).  Definitions (`Truthful`, `Loc`, `AllWF` ...) and lemmas live in Proofs/C01*.lean.
